@@ -16,8 +16,16 @@
     operations the client contract forbids - synchronize, retire or detach inside a section, nesting depth 2^31 -
     are not executed), any spin fuel.  general_buffered (model LV.Model.RcuBuf, tied to cds/urcu/details/gpb.h by
     checks/C05.py): theorems C04_gpb_* below, any buffer capacity, counting or non-counting buffer; the exactly-once
-    theorems are in Properties_C05.v.  general_threaded and signal_buffered have no Coq theorem: they are covered
-    by exploration of the real code with the same monitors (checks/C05.py), labelled as such in the evidence.
+    theorems are in Properties_C05.v.
+    signal_buffered (model LV.Model.RcuSignal) and general_threaded (model LV.Model.RcuThreaded) CANNOT run under the
+    deterministic scheduler (real signals / mutex + condition variables + a background thread): their models are tied
+    to the code only by reading and by the real-thread exploration of checks/C05.py with the same monitors - there is
+    no step correspondence for them.  Modelling assumptions (stated at the top of the model files): signal delivery +
+    handler = one atomic step of a delivery pseudo-thread; mutex/condvar hand-offs to the reclamation thread = atomic
+    test-and-post / test-and-take; join = a counter.  signal_buffered: theorems C04_shb_* (full).  general_threaded:
+    C04_gpt_no_dispose_inside_old_reader_partial (the grace-period and epoch facts for any state satisfying the
+    invariants; the preservation of the product invariant across the hand-off is NOT proved, the full statement is
+    visible as gpt_no_dispose_inside_old_reader_statement).
 
     The sentence of C04 about raw_ptr / exempt_ptr ("pointers handed out by RCU containers stay valid until
     released outside the lock") is NOT a statement about the RCU core: such a pointer stays valid because the
@@ -26,8 +34,8 @@
     retire call.  The retire discipline belongs to the container models (C13/C15 RCU variants) and their
     harnesses; nothing here claims it. *)
 From Coq Require Import ZArith List String.
-From LV Require Import Base.Conc Base.Events Model.RcuGp Model.RcuBuf Proofs.RcuGpInv Proofs.RcuGpSafe Proofs.RcuGpRefute
-  Proofs.RcuBufInv Proofs.RcuBufProd.
+From LV Require Import Base.Conc Base.Events Model.RcuGp Model.RcuBuf Model.RcuSignal Model.RcuThreaded Proofs.RcuGpInv
+  Proofs.RcuGpSafe Proofs.RcuGpRefute Proofs.RcuBufInv Proofs.RcuBufEpoch Proofs.RcuBufProd Proofs.RcuSignalProofs Proofs.RcuThrGrace.
 Import ListNotations.
 Local Open Scope string_scope.
 
@@ -79,6 +87,38 @@ Theorem C04_gpb_synchronize_waits :
 Proof. exact gpb_synchronize_waits_all. Qed.
 Print Assumptions C04_gpb_synchronize_waits.
 
+(** signal_buffered: synchronize (fetch_add, force_membar_all_threads, two switch_next_epoch / wait_for_quiescent_state,
+    force_membar_all_threads, clear_buffer) returns only after all pre-existing readers have left, and no object is
+    disposed while a reader that entered before its retirement is inside.  Threads 0..n-1 are clients, thread n is the
+    signal delivery pseudo-thread. *)
+Theorem C04_shb_synchronize_waits :
+  forall (sfuel rf kfuel : nat) (cap : Z) (cnt : bool) (ths : list (list RcuBuf.bop)) c,
+    Conc.reach (RcuSignal.sinit_cfg sfuel rf kfuel cap cnt ths) c -> sync_waits (Conc.trace c).
+Proof. exact shb_synchronize_waits_all. Qed.
+Print Assumptions C04_shb_synchronize_waits.
+
+Theorem C04_shb_no_dispose_inside_old_reader :
+  forall (sfuel rf kfuel : nat) (cap : Z) (cnt : bool) (ths : list (list RcuBuf.bop)) c,
+    Conc.reach (RcuSignal.sinit_cfg sfuel rf kfuel cap cnt ths) c ->
+    forall w p d, at_ (Conc.trace c) d w (is_dispose p) ->
+      exists k w', k < d /\ at_ (Conc.trace c) k w' (is_retire p) /\
+        forall r s, open_at (Conc.trace c) r s k -> exists b, k < b < d /\ at_ (Conc.trace c) b r is_runlock0.
+Proof. exact shb_dispose_safe_all. Qed.
+Print Assumptions C04_shb_no_dispose_inside_old_reader.
+
+(** general_threaded, PARTIAL (see the header and LV.Proofs.RcuThrGrace): in any state satisfying the gp invariant and
+    the epoch invariant, once the caller of synchronize has finished its two flip_and_wait (marker i = position of its
+    fetch_add, which returned n), every buffer entry of epoch <= n was retired before i and every reader that was
+    inside at its retirement has left - at that moment and at any later time, so the reclamation thread may free it. *)
+Theorem C04_gpt_no_dispose_inside_old_reader_partial :
+  forall g a aE tr w i n p e k,
+    Inv g a tr -> InvE g aE tr -> l_w (a w) = WFin i -> e_s aE w = EIn i n ->
+    In (p, e, k) (e_buf aE) -> (e <= n)%Z ->
+    (exists w', at_ tr k w' (is_retire p)) /\ k < i /\
+    forall x r s, open_at (tr ++ x)%list r s k -> exists b, k < b < List.length (tr ++ x)%list /\ at_ (tr ++ x)%list b r is_runlock0.
+Proof. exact gpt_no_dispose_inside_old_reader_partial. Qed.
+Print Assumptions C04_gpt_no_dispose_inside_old_reader_partial.
+
 (** gp_single_flip_refuted (non-vacuity regression): the same model with ONE flip_and_wait in synchronize has a
     reachable trace that violates the statement of C04_gp_synchronize_waits. *)
 Theorem C04_gp_single_flip_refuted :
@@ -112,3 +152,11 @@ Example C04_gpb_dispose_nonvacuous :
              [0;0;0;0;0;0;0;0;1;1;1;1;1;1;1;1;1;1;1;2;2;2;2;2;2;2;2;2;2;2;2;2;2;2;0;0;0;0]%nat 5000 in
   snd r = true /\ map (fun p => ndisp p (filter (fun x => Nat.eqb (fst x) 2) (fst r))) [1; 2]%Z = [1; 1]%nat.
 Proof. vm_compute. split; reflexivity. Qed.
+
+(** signal_buffered: a run with capacity 2 in which a synchronize waits through force_membar_all_threads (the delivery
+    pseudo-thread clears the flags), all five objects are disposed and both clients complete *)
+Example C04_shb_nonvacuous :
+  let r := RcuSignal.run_case [300; 2; 0; 40; 300]%Z [[[1]; [3]; [9]; [4]]; [[1]; [6; 1]; [6; 2]; [6; 3]; [10; 4; 5]; [5]]]%Z [] 6000 in
+  snd r = true /\ map (fun p => ndisp p (fst r)) [1; 2; 3; 4; 5]%Z = [1; 1; 1; 1; 1]%nat /\
+  List.length (filter (is_cli "sync_end") (map snd (fst r))) = 1%nat.
+Proof. vm_compute. repeat split; reflexivity. Qed.
